@@ -346,3 +346,29 @@ def walk(t):
             yield from walk(a)
     elif k == "proj":
         yield from walk(t[1])
+
+
+def strip_types(t):
+    """Drop the receiver-type annotation of call terms (5th element) recursively, for structural comparison."""
+    if not isinstance(t, tuple) or not t:
+        return t
+    k = t[0]
+    if k == "call":
+        return ("call", t[1], tuple(strip_types(a) for a in t[2]), tuple(strip_types(e) if isinstance(e, tuple) else e for e in t[3]))
+    if k == "agg":
+        return ("agg", t[1], t[2], tuple((f, strip_types(x)) for f, x in t[3]), tuple(strip_types(e) if isinstance(e, tuple) else e for e in t[4]))
+    if k == "op":
+        return ("op", t[1], tuple(strip_types(a) for a in t[2])) + tuple(t[3:])
+    if k in ("param", "field", "arg"):
+        return t[:3] + (tuple(strip_types(e) if isinstance(e, tuple) else e for e in t[3]),)
+    if k == "[]" and len(t) == 2:
+        return ("[]", strip_types(t[1]))
+    if k == "alt":
+        return ("alt", tuple(strip_types(a) for a in t[1]))
+    if k == "pushed":
+        return ("pushed", strip_types(t[1]), tuple(strip_types(a) for a in t[2]))
+    return t
+
+
+def teq(a, b):
+    return strip_types(a) == strip_types(b)
